@@ -168,6 +168,12 @@ func (p *provider) watchChanges(ctx context.Context, rsf RuleSetFetcher) error {
 		if errors.Is(err, heimdall.ErrInternal) || errors.Is(err, heimdall.ErrConfiguration) {
 			return err
 		}
+
+		// in case of network issues, like dns errors, timeouts and alike, nothing is known about
+		// the contents of the bucket. The rule sets received before are preserved
+		if errors.Is(err, heimdall.ErrCommunication) || errors.Is(err, heimdall.ErrCommunicationTimeout) {
+			return err
+		}
 	}
 
 	state := p.getBucketState(rsf.ID())
